@@ -233,8 +233,10 @@ static void judge_success(Out& o, const Mother& M, const cell_ptr& d1, const cel
         o.maxi("cut_volume_err_over_tol", (double)(err / 1e-9L));
         if (!(err <= 1e-9L)) cs.viol("success:cut_volume" + sfx, "before refinement V1+V2 differs from the mother's volume by " + fmt((double)err) + " relative" + ctx);
         // an axis closer than sqrt(2 eps) = 1.5e-8 rad to +-z has cos = 1 in double: the rotation to the z axis cannot see the tilt and the cut is
-        // off by (tilt x size); the allowance is 1e-9 L plus that much for axes within 3e-8 rad of +-z
-        R hs_tol = 1e-9L * ev->L; if (const axis_cell* ac = dynamic_cast<const axis_cell*>(M.c.get())) { R sx = ac->last_axis_.dx(), sy = ac->last_axis_.dy(); R tilt = std::sqrt(sx * sx + sy * sy); if (tilt < 3e-8L) hs_tol += tilt * ev->L; }
+        // off by (tilt x size); the allowance is 1e-9 L plus that much for axes within 3e-8 rad of +-z.  Beyond that the rotation angle is acos(n.z) with
+        // n.z one rounding (1.1e-16) away from +-1: the angle, hence the normal of the plane actually used, is off by ~1.1e-16 / tilt rad (3e-9 rad at a
+        // tilt of 3.5e-8: observed excess 2.0e-9 L in the thorough tier).  The statement asks for A plane through the centroid: 2.3e-16 / tilt x L more
+        R hs_tol = 1e-9L * ev->L; if (const axis_cell* ac = dynamic_cast<const axis_cell*>(M.c.get())) { R sx = ac->last_axis_.dx(), sy = ac->last_axis_.dy(); R tilt = std::sqrt(sx * sx + sy * sy); hs_tol += (tilt < 3e-8L ? tilt : 2.3e-16L / tilt) * ev->L; }
         if (ev->L > 0) { o.maxi("cut_halfspace_excess_over_tol", (double)(ev->pre_excess / hs_tol));
             if (!ev->sides_ok || ev->pre_excess > hs_tol) cs.viol("success:cut_halfspace" + section_feature(M) + sfx, "right after the cut (before refinement) a daughter has a node " + fmt((double)(ev->pre_excess / ev->L)) + " L beyond the division plane" + ctx); }
         if (!(err2 <= 1e-9L)) cs.viol("success:mother_volume_changed_before_cut" + sfx, "the mother's own volume at the division event differs from the one before the call" + ctx);
@@ -244,7 +246,7 @@ static void judge_success(Out& o, const Mother& M, const cell_ptr& d1, const cel
     // coordinates (<= 1e-14 L for offsets <= 10 L); collapses and splits of the refiner create midpoints only, which stay in a half space.
     V3 n(axis_used.dx(), axis_used.dy(), axis_used.dz()); R nn = n.norm(); if (!(nn > 0)) { cs.viol("success:axis_zero", "axis has zero length" + ctx); return; } n = n / nn;
     R tol = 1e-9L * M.L; V3 ctr = M.geo.centroid;
-    { R tilt = std::sqrt(n.x * n.x + n.y * n.y); if (tilt < 3e-8L) tol += tilt * M.L; }   // same allowance as right after the cut: the tilt of an axis within sqrt(2 eps) of +-z is not resolved
+    { R tilt = std::sqrt(n.x * n.x + n.y * n.y); tol += (tilt < 3e-8L ? tilt : 2.3e-16L / tilt) * M.L; }   // same allowance as right after the cut: the tilt of an axis within sqrt(2 eps) of +-z is not resolved
     R s[2]; for (int k = 0; k < 2; k++) s[k] = (gd[k].centroid - ctr).dot(n);
     if (!(s[0] * s[1] < 0)) cs.viol("success:daughters_same_side" + section_feature(M) + sfx, "the centroids of the two daughters are not on opposite sides of the division plane" + ctx);
     else for (int k = 0; k < 2; k++) {
